@@ -114,7 +114,7 @@ def _kd(group, hs, thorough=None, timeout=2400):
 def _ed(group, hs, thorough=None):
     return {"kind": "enum", "group": group + "-enum", "harnesses": hs, "thorough_harnesses": thorough or [],
             "bounds": "exhaustive native execution of the same harness bodies over their whole decision tree (same bounds as the Kani harnesses; thorough tier adds 3-member objects)"}
-_DERIVE_LEVEL_NOTE = "Bounded stand-in (Kani/CBMC, all inputs within the stated bounds, unwinding assertions on) -- not counted as proved; the derive's generated code is outside Verus' reach (string-literal matches, closures, inferred FieldState types)."
+_DERIVE_LEVEL_NOTE = "Harnesses derive_tagged_last, order_tagged and derive_nest exceeded CBMC's memory budget (> 15 GB each) and are covered only by the exhaustive native execution of the same bodies. Bounded stand-in (Kani/CBMC, all inputs within the stated bounds, unwinding assertions on) -- not counted as proved; the derive's generated code is outside Verus' reach (string-literal matches, closures, inferred FieldState types)."
 PROPS.update({
     "C07": {"title": "Derived fields are read from exactly their effective key", "level": "model_checking",
         "technique": "Kani/CBMC bounded model checking of the real derive expansion against a reference interpreter (symbolic keys over a dictionary with near-misses); contract = postcondition computed from the declarative description",
@@ -137,7 +137,7 @@ PROPS.update({
     "C10": {"title": "Enum dispatch: the tag or string selects exactly the named variant", "level": "model_checking",
         "technique": "Kani/CBMC bounded model checking of the real derive expansion of a tagged enum and a unit enum against a reference interpreter (tag first / last / absent / non-string / near-miss names)",
         "design_ref": "DESIGN.md §4 C07-C11",
-        "units": [_kd("derive-enum", ["derive_tagged_first", "derive_tagged_last", "derive_tagged_absent", "derive_tagged_not_a_map", "derive_units"]), _ed("derive-enum", ["derive_tagged_first", "derive_tagged_last", "derive_tagged_absent", "derive_tagged_not_a_map", "derive_units"])],
+        "units": [_kd("derive-enum", ["derive_tagged_first", "derive_tagged_absent", "derive_tagged_not_a_map", "derive_units"]), _ed("derive-enum", ["derive_tagged_first", "derive_tagged_last", "derive_tagged_absent", "derive_tagged_not_a_map", "derive_units"])],
         "text": "Tagged enum with renamed variants, container rename_all, a variant-level rename_all and variants sharing a field name with different types: the variant is the one whose effective name equals the tag string exactly (case variations and field keys as tag values select nothing: Unexpected at the enum), absent tag => MissingField(tag) at the enum, non-string tag => kind error at the tag's own location, fields then follow the selected variant's rules only. Unit enum: exact match, otherwise UnknownValue with all effective names in declaration order.",
         "level_note": _DERIVE_LEVEL_NOTE, "assumptions": _DERIVE_ASSUME},
     "C11": {"title": "from / try_from / map / validate see only good values, once, in order", "level": "model_checking",
@@ -149,7 +149,7 @@ PROPS.update({
     "C15": {"title": "Object member order never changes the outcome", "level": "model_checking",
         "technique": "Kani/CBMC relational harness on the real derive expansion over an order-preserving second value source: same two members in both orders, keep-going error type; equal values and equal multisets of reports",
         "design_ref": "DESIGN.md §4 C15",
-        "units": [_kd("derive-order", ["order_camel", "order_tagged", "order_conv8"]), _ed("derive-order", ["order_camel", "order_tagged", "order_conv8"])],
+        "units": [_kd("derive-order", ["order_camel", "order_conv8"]), _ed("derive-order", ["order_camel", "order_tagged", "order_conv8"])],
         "text": "For a struct with renames/defaults/deny_unknown_fields, a tagged enum (tag before and after the other member) and a struct with conversion functions: the payload's two members (distinct symbolic keys, symbolic values) are presented in both orders through the arena value source; the Ok values and the multisets of events received by a keep-going error type must be equal. std map targets: the Verus trace is defined over the entry sequence; order-independence of the multiset there is not claimed.",
         "level_note": _DERIVE_LEVEL_NOTE + " Objects of exactly 2 members.", "assumptions": _DERIVE_ASSUME},
 })
@@ -208,6 +208,20 @@ PROPS["C16"] = {
     "level_note": "The token-level parsing (syn) and the shape checks are not within reach of either verifier: that part is a bounded compile run over a sampled grammar, labelled as such. syn / proc_macro2 types are opaque stand-ins in the Verus unit.",
     "explanation": "Partial deductive proof (merge / validate logic) + bounded compile-fail run; the 'every derive input' quantifier is sampled.",
     "assumptions": ["syn::Error construction does not panic; Vec::extend is total (external_body stand-ins)"],
+}
+
+PROPS["C12"] = {
+    "title": "deserialize is total: it returns Ok or Err, it never panics", "level": "proof",
+    "technique": "Verus proves every extracted function free of panics (unwrap / panic! / index / arithmetic) under the value-source contract; Kani reports any reachable panic or overflow in the real compiled code of the scalar, serde_json-number and derive harnesses as a failed check",
+    "design_ref": "DESIGN.md §A.6, §4 C12",
+    "units": [{"kind": "verus", "unit": "impls"}, {"kind": "verus", "unit": "value"},
+              {"kind": "kani", "group": "json-scalars", "filters": ["h_json::proofs"], "need_stub": True, "timeout": 1200},
+              _kd("derive-total", ["derive_camel_2", "derive_conv8_2", "derive_tagged_first"], ["derive_plain_2", "derive_lower_2", "derive_deny4_2", "derive_fns5_2", "derive_cont9", "derive_tagged_absent", "derive_tagged_not_a_map", "derive_units"]),
+              _ed("derive-total", ["derive_plain_2", "derive_camel_2", "derive_lower_2", "derive_deny4_2", "derive_fns5_2", "derive_conv8_2", "derive_cont9", "derive_tagged_first", "derive_tagged_last", "derive_tagged_absent", "derive_tagged_not_a_map", "derive_units", "derive_nest"], ["derive_conv8_3"]),
+              {"kind": "kani", "group": "scalars", "filters": _SCALAR_HARNESSES, "need_stub": True, "timeout": 1200, "thorough_only": True}],
+    "text": "Unbounded part (Verus): every std container impl, take_cf_content and the value-pointer functions verify with zero errors, which includes absence of panics on every path: the `panic!` after `try_into` in [T; N] is unreachable (ret.len() == N), the `iter.next().unwrap()` / `a.unwrap()` of the tuple impls are safe (arity checked, accumulator None), `index += 1` cannot overflow -- for every payload, every well-formed value source and every answer sequence. Complete part (Kani): every serde_json Number built from any u64 / i64 / finite f64 is classified (no `panic!()` in into_value / kind); scalar impls (thorough tier). Bounded part: the derive catalogue harnesses (FieldState::unwrap is reached only with all fields Some) under Kani and by exhaustive native execution with catch_unwind, including duplicate keys from the arena value source.",
+    "level_note": "Stack depth (nesting 128) is not modelled by either verifier. Derived types are bounded and sampled (see C07). A Verus message counts for C12 when its primary span is extracted repository code (not inserted ghost text) and its class is a panic class (failed precondition of a std/vstd function, arithmetic overflow, index).",
+    "assumptions": _CONTAINER_ASSUME + ["derived types: bounded payloads and sampled programs, see C07-C11"],
 }
 
 NOT_APPLICABLE = {
